@@ -490,6 +490,25 @@ class Match(Par):
                         ops.append(self.entry_op(rng, rng.choice(paths)))
                         ops.append('q path')
             yield Case(f'{kind}{i}', ops)
+        # re-registration of a pathname with archive_match_exclude_entry: each of the four stored fields (mtime and
+        # ctime, seconds and nanoseconds) must come from the second registration; the probes sit between all the
+        # values either registration could have left behind, for every time field and relation
+        def ent(ms, mn, cs, cn):
+            return f'entry n {ustr("f")} {ms} {mn} 1 {cs} {cn} 0 0 null null'
+        regs = [((50, 100, 60, 200), (100, 500, 100, 900)), ((100, 700, 100, 300), (100, 500, 100, 900)),
+                ((100, 900, 100, 500), (100, 300, 100, 700)), ((100, 500, 100, 900), (50, 100, 60, 200))]
+        for k, (first, second) in enumerate(regs):
+            for tf in (MT, CT, MT | CT):
+                for rel in (NEWER, OLDER, EQUAL, NEWER | EQUAL):
+                    ops = [ent(*first), f'exent {tf | rel}', ent(*second), f'exent {tf | rel}']
+                    secs = sorted({first[0], first[2], second[0], second[2]})
+                    nss = sorted({first[1], first[3], second[1], second[3]})
+                    nss = sorted(set(nss + [x - 50 for x in nss] + [x + 50 for x in nss]))
+                    for sec in secs:
+                        for ns in nss:
+                            ops += [ent(sec, ns, sec, ns), 'q time']
+                            ops += [ent(sec, ns, secs[0], nss[0]), 'q time', ent(secs[-1], nss[-1], sec, ns), 'q all']
+                    yield Case(f'reregister{k}-{tf}-{rel}', ops)
 
     # -- the property, evaluated on the implementation's own answers ------------------------------
     def oracle(self, case, impl):
